@@ -6,6 +6,7 @@ import (
 	"sort"
 	"strings"
 	"sync"
+	"time"
 )
 
 type pt struct{ x, y int }
@@ -386,4 +387,34 @@ func verifSelfRLockTwoReaders() {
 		mu.Unlock()
 	}()
 	wg.Wait()
+}
+
+// verifSelfAfterFuncVirtual: time.AfterFunc on the virtual clock (harness option
+// virtualAfterFunc): not before its deadline, when due (verifAdvance or every goroutine blocked),
+// never after Stop.
+func verifSelfAfterFuncVirtual() {
+	fired := make(chan struct{})
+	time.AfterFunc(time.Second, func() { close(fired) })
+	verifAdvance(int64(500 * time.Millisecond))
+	verifQuiesce()
+	select {
+	case <-fired:
+		verifAssert(false, "fired-early")
+	default:
+	}
+	verifAdvance(int64(600 * time.Millisecond))
+	verifQuiesce()
+	select {
+	case <-fired:
+	default:
+		verifAssert(false, "not-fired-when-due")
+	}
+	t2 := time.AfterFunc(time.Second, func() { verifAssert(false, "stopped-timer-fired") })
+	verifAssert(t2.Stop(), "stop-of-an-armed-timer-reports-true")
+	verifAdvance(int64(2 * time.Second))
+	verifQuiesce()
+	done := make(chan struct{})
+	time.AfterFunc(time.Hour, func() { close(done) })
+	<-done
+	verifAssert(verifClock() >= int64(time.Hour), "clock-jumps-when-every-goroutine-is-blocked")
 }
